@@ -27,7 +27,7 @@ PM.install(R)
 R.import_proved(_V.R, "contracts.vcf_py", ["PhasedVcfWriter._remove_existing_phasing"])
 OPTINT = PM.OPTINT
 _arrs, _keys = PM._arrs, PM._keys
-P = ["C04", "C09", "C03"]
+P = ["C04", "C09", "C03", "C02"]
 
 R.classes["PVW"] = {"tag": INT, "_mav": BOOL, "_only_snvs": BOOL, "samples": LIST(INT), "ploidy": INT, "_phase_tag_found_warned": BOOL}
 R.classes["Record"] = dict(R.classes["Record"], start=INT, ref=INT, alts=LIST(INT), alts_none=BOOL)
